@@ -66,6 +66,10 @@ def unit_ast(a):
     return stats
 
 
+def unit_reuse(a):
+    return pc.unit_reuse(a, st_ast(**BIAS), proj_c08, WHAT, 68)
+
+
 def unit_golden(a):
     return pc.unit_golden(proj_c08, WHAT)
 
@@ -76,6 +80,8 @@ def replay(case, stats):
     if case["sub"] == "text":
         from . import textdocs
         return textdocs.check_text(case, stats, "C08")
+    if case["sub"] == "reuse":
+        return pc.check_reuse(case, stats, proj_c08, WHAT)
     return check_ast(case, stats)
 
 
@@ -84,6 +90,7 @@ def run(ctx):
     q = ctx.quick
     ctx.units("golden", unit_golden, [{}])
     ctx.units("ast-hypothesis", unit_ast, [{"n": 1000 if q else 20000, "seed": ctx.seed, "shard": i} for i in range(4 if q else 16)], procs=16)
+    ctx.units("compiler-reuse", unit_reuse, [{"n": 300 if q else 4000, "seed": ctx.seed, "shard": i} for i in range(4 if q else 16)], procs=16)
     from . import textdocs
     textdocs.run_text(ctx, "C08")
     ctx.rule = ("ASTs with 0..3 tags (duplicates, bare '@') on feature, rules, scenarios and examples blocks, several siblings at each "
